@@ -2,6 +2,7 @@ import CCT.Lemmas.ParseWF
 import CCT.Props.C07
 import CCT.Props.C09
 import CCT.Lemmas.CanonInv3
+import CCT.Model.Files
 /-!
 # C08 — persisting metadata never changes its trust status
 
@@ -103,6 +104,50 @@ theorem reload_trusted_only (C : CryptoFns) (t u : J) (ht : t.WF) (hu : u.WF) : 
 
 
 /-! ## values that came from files are well-formed (parser soundness, `Lemmas/ParseWF.lean`) -/
+
+-- ---------------------------------------------------------------------------------------------------------------------
+-- named files (Model/Files.lean)
+
+/-- **what a write leaves in the named file does not depend on what was there**: two file systems, whatever they hold under the name (a file another
+tool left there — final newline, BOM, other layout, longer, shorter, nothing), hold the same thing under it after the same value was written -/
+theorem write_over_anything (fs fs' : FS) (name : PStr) (v : J) (g g' : FS) (h : writeMd fs name v = some g) (h' : writeMd fs' name v = some g') :
+    g name = g' name ∧ g name = some (ser v) := by
+  simp only [writeMd, Option.map_eq_some_iff] at h h'
+  obtain ⟨b, hb, rfl⟩ := h
+  obtain ⟨b', hb', rfl⟩ := h'
+  have e : b = b' := by rw [hb] at hb'; exact Option.some.inj hb'
+  subst e
+  have : b = ser v := by
+    unfold serPy at hb
+    split at hb
+    · exact (Option.some.inj hb).symm
+    · cases hb
+  simp [FS.put, this]
+
+/-- **a write touches the named file only** (no sibling, temporary or backup file appears or changes) -/
+theorem write_frame (fs g : FS) (name other : PStr) (v : J) (h : writeMd fs name v = some g) (hne : other ≠ name) : g other = fs other := by
+  simp only [writeMd, Option.map_eq_some_iff] at h
+  obtain ⟨b, _, rfl⟩ := h
+  simp [FS.put, hne]
+
+/-- **write, then load under the same name** gives the (key-sorted) value back, for every well-formed value and whatever the file system held -/
+theorem write_then_load (fs : FS) (name : PStr) (v : J) (hv : v.WF) : ∃ g, writeMd fs name v = some g ∧ loadMd g name = some (canon v) := by
+  refine ⟨fs.put name (ser v), by simp [writeMd, C07.serPy_total_on_wf v hv], ?_⟩
+  simp [loadMd, FS.put, load_write v hv]
+
+/-- a refused value (an in-memory integer beyond the interpreter's conversion limit) leaves every file as it was: serialization comes before the open -/
+theorem refused_write_touches_nothing (fs : FS) (name : PStr) (v : J) (h : serPy v = none) : writeMd fs name v = none := by
+  simp [writeMd, h]
+
+/-- **signing a stored file in place touches that file only**, and fails without touching anything when the file is missing or is not an envelope -/
+theorem signFile_frame (C : CryptoFns) (fs g : FS) (name other : PStr) (seed : Bytes) (h : signFile C fs name seed = some g) (hne : other ≠ name) :
+    g other = fs other := by
+  unfold signFile at h
+  split at h
+  · cases h
+  · split at h
+    · exact write_frame fs g name other _ h hne
+    · cases h
 
 /-- **every value loaded from a strict-UTF-8 file is a well-formed JSON value** — so the well-formedness hypothesis of the theorems of this
 file (and of C04, C07) holds for everything that `load_metadata_from_file` returned for such a file -/
